@@ -10,7 +10,7 @@ ben_tab = subprocess.run(["python3", os.path.join(V, "tools", "benign_table.py")
 
 S9 = '''## 9. Independently seeded defects (which checks catch which changes)
 
-Method. For every property *fresh* sub-agents (three rounds; the second and third were told what the earlier ones had
+Method. For every property *fresh* sub-agents (four rounds; the later ones were told what the earlier ones had
 produced and asked for changes different in kind — round 3 explicitly for two cooperating sites, cached / memoised
 values that are not invalidated, histories of several operations, boundary values and narrow interleavings) were given
 only the property's text and their own scratch git worktree of `/repo` (nothing from `/verif`) and asked for up to
@@ -61,6 +61,33 @@ Round 3 (changes "different in kind") and what it led to:
   daemons per process, creators raising TypeError), C10 (fixed correlation ids, the real multiplex loop under traffic),
   C11 (returned exception objects, per-daemon histories), C16 (failed registrations, builtin-derived registered
   classes), C18 (failing `Thread.start()`), C19 (proxy-state histories), C20 (config written between requests).
+
+Round 4 (changes in code the property depends on only indirectly: collaborators, error paths, data-model subtleties,
+resource lifetimes, time-dependent logic, state that survives from one operation / connection / daemon to the next) was
+the hardest: of 57 confirmed changes about half were missed at first. What it led to:
+* C06: an accepted message starts with a header (tag / version / magic; `accept-bad-header`), the constructor refuses a
+  "header" with stray bytes (`accept-long-header`); the sender is now transcribed and proved too (`sendInit_translated`).
+* C17: a fake clock — every scripted socket call on a socket with timeout T takes 0.7 T, sleeps advance it — so time budgets
+  inside the transfer loops are exercised (a send loop that gives up silently when its deadline has passed).
+* C13: the server-side timeout exists only through the timeout the server puts on the accepted socket: with COMMTIMEOUT > 0
+  the fake sockets are strict (a silent peer on a socket without timeout blocks for ever = reported); connections ended by
+  RST (ECONNRESET, then `getpeername()` ENOTCONN); nothing may escape the transport server's event handling.
+* C08: messages whose only fault is the magic number, in every position (first message = garbage whatever it says); the
+  daemon's own registered object (`Pyro.Daemon`) is instrumented — none of its methods runs during a handshake before the
+  validator accepted.
+* C15: `C15_failed_no_effect` (an operation that answers with a naming error leaves the map as it was), checked on both storage
+  back-ends with metadata the sqlite back-end refuses half way through the write; one pass of the real `AutoCleaner.run` as a
+  further thread under the scheduler (its removals are operations like a client's).
+* By their builders: C01 (SERPENT_BYTES_REPR on, streams held without their proxy, same-named classes served earlier), C02
+  (weak and class registrations, re-advertising after `resetMetadataCache`, bytes names through marshal / msgpack), C03 (stale
+  metadata: methods the object no longer has, oneway or not; blob arguments; `C03_fault_free`), C07 (next call after a forwarded
+  SerializeError; streams under housekeeping with a lifetime), C09, C10 (daemon driven through `events()` only; property
+  streams; diverged close with a custom handshake), C11 (programs over copied `BatchProxy` objects, `C11_program`; exception
+  classes with registered converters), C14 (default-constructed name servers are fresh and independent; two overlapping
+  clients), C16 (subclass object registered after a base-class object), C18 (model of one connection's life:
+  `C18_conn_closed`, `C18_refusal_bounded`; refusal seen through the real client), C19 (URI objects through every
+  serializer keep their state's types), C20 (wire compression with incompressible payloads, iterator-valued members,
+  same-named classes behind the gateway), C04, C05.
 
 ''' + seed_tab
 
